@@ -106,7 +106,8 @@ fn main() {
             // worst work / allocation ratios
             let n: u64 = a.get(2).and_then(|x| x.parse().ok()).unwrap_or(100);
             let mut worst = (0u64, 0u64, 0u64, 0u64);
-            for seed in 0..n {
+            let start = env_u64("SCALE_SEED", 0);
+            for seed in start..start + n {
                 let spec = if std::env::var("DCHAIN").is_ok() { seeds::SeedSpec::DescriptorChain { seed } } else if std::env::var("CHAIN").is_ok() { seeds::SeedSpec::LengthChain { seed } } else { seeds::SeedSpec::Scale { seed } };
                 let case = modee::CorruptCase { seed: spec, faults: vec![], labels: vec![], split: seed % 2 == 0, init_faults: vec![], late: None, extra_ids: vec![], sweep: false };
                 let mut cfg = sched::SessionCfg::standard();
